@@ -182,7 +182,7 @@ func c11RacePass(tier string) {
 	for _, plan := range plans {
 		for it := 0; it < raceIters(tier); it++ {
 			sh := env.NewSubordinateEnv(base)
-			for _, s := range []string{"(def shared [1 2 3])", "(def sharedmap {:a 1})"} {
+			for _, s := range []string{"(def shared [1 2 3])", "(def sharedmap {:a 1})", "(defmacro qm (fn [x] (list (quote quote) x)))"} {
 				lx.Eval(context.Background(), lx.MustRead(s), sh)
 			}
 			var bodies []func()
